@@ -321,8 +321,11 @@ class ProgramSet(NamedItem):
         for prog in self.programs.values():
             if code_name in prog.target_pops:
                 prog.target_pops.remove(code_name)
-            if (prog.name, code_name) in self.covouts:
-                self.covouts.pop((prog.name, code_name))
+
+        # The covouts are keyed by (parameter, population)
+        for par in self.pars:
+            if (par, code_name) in self.covouts:
+                self.covouts.pop((par, code_name))
 
         del self.pops[code_name]
 
